@@ -176,7 +176,7 @@ func OracleCancel(prop string, v *View) []Violation {
 		signal                      bool
 	}
 	deps := map[int]*depState{}
-	for _, e := range v.R.Events {
+	for _, e := range v.Events {
 		if e.Probe || e.Dep == 0 {
 			continue
 		}
@@ -249,7 +249,7 @@ func OracleObservedResult(prop string, v *View) []Violation {
 	if decl == nil {
 		return []Violation{viol(prop, "undeclared-output", "", "returned output %q is not declared", c.OutputID)}
 	}
-	obs := Observe(v.C.Program, v.Facts.Input, v.R.Events, c.EndSeq)
+	obs := Observe(v.C.Program, v.Facts.Input, v.Events, c.EndSeq, v.Shutdown)
 	if bad, ok := producedBefore(obs, decl.E, c.EndSeq+1); !ok {
 		return []Violation{viol(prop, "output-without-dependency", refKind(bad), "output %q was returned although %s had not been produced in this run", c.OutputID, bad)}
 	}
